@@ -13,7 +13,13 @@
      Write(s, k, i, n)     taken inside the connection's Write: k = "ack" (SENDACK for client
                            sequence n) or "push" (the n-th other frame of issuer i)
      Issue / IssueDone     around Session.WriteFrame for the other frames
-     Close(s)              taken inside the connection's Close
+     Close(s)              the connection was closed: taken inside the connection's Close when
+                           the server closes it, and BEFORE the server is told when the peer
+                           closes it (from then on the connection refuses writes).  The server's
+                           close of a session is a sequence that ends with the connection's
+                           Close; inbound data is already dropped during it, so a peer's close
+                           stamped at its end would let the harness count SENDs as accepted
+                           (feed returned, connection open) that the server never looked at.
      DrainStarted          a DrainSends call has returned (admission is certainly closed)
      DrainDone             a DrainSends call with a live context has returned nil
      Quiesce               nothing is running any more (all goroutines joined, drain done)
